@@ -735,6 +735,9 @@ package parser
 //@   requires p != nil && p.scope != nil
 //@   invariant@1 p.scope == old(p.scope) && p.scope.inSwitch && p.scope.inIteration == old(p.scope.inIteration) && len(p.scope.labels) == old(len(p.scope.labels)) && p.scope.outer == old(p.scope.outer)
 //@   at_call (*parser).parseCaseStatement : p.scope.inSwitch
+// 12.11: at most one default clause - a second one is reported, wherever the first one stood
+//@   calls (*parser).error(_, _, _, _) as er when false
+//@   at_backedge@1 isnil(clause.Test) && athead(1, node.Default) != -1 ==> ncalls(er) > athead(1, ncalls(er))
 //@   ensures p.scope != nil && scopeKept(p)
 // 13: a function body starts a new context (no enclosing loop, switch or label) and the
 // enclosing one is current again afterwards
